@@ -110,8 +110,8 @@ def run(ctx, rep):
         rep.floor('N2', f'{be}: type definition sites', defs, 3)
         helper_struct(ctx, rep, T, be, struct, fns, prefixed)
         n4(ctx, rep, T, be, struct, fns, prefixed)
-    n3(ctx, rep)
-    n5(ctx, rep, T)
+    rep.section(n3, ctx, rep)
+    rep.section(n5, ctx, rep, T)
     rep.extra['evaluations'] = n_sites
 
 
